@@ -279,6 +279,13 @@ func (t *FnTrans) acquireHavocOnly(mon *monRef, ref string) {
 				ks := t.sortOf(mt.Key())
 				t.assume(fmt.Sprintf("(forall ((mk$k %s)) (! (and (wf-slice (select %s mk$k)) (< (s.base (select %s mk$k)) %s)) :pattern ((select %s mk$k))))", ks, vv, vv, t.get("$alloc"), vv))
 			}
+			if t.sortOf(mt.Elem()) == "Int" {
+				if _, isInt := intInfoOf(t.resolve(mt.Elem())); !isInt {
+					// reference-typed values: what other goroutines stored are existing objects (closed heap)
+					ks := t.sortOf(mt.Key())
+					t.assume(fmt.Sprintf("(forall ((mk$k %s)) (! (and (<= 0 (select %s mk$k)) (< (select %s mk$k) %s)) :pattern ((select %s mk$k))))", ks, vv, vv, t.get("$alloc"), vv))
+				}
+			}
 			continue
 		}
 		if strings.HasPrefix(g, "elems:") {
@@ -447,6 +454,9 @@ func (t *FnTrans) checkGuarded(p *Ptr, write bool) {
 				if m.Atomic {
 					continue
 				}
+				if !write && t.unguardedRead(field) {
+					continue
+				}
 				// objects allocated by this call and not yet published are thread-local
 				t.oblige("guard", or(need, app(">=", p.Ref, q("$alloc@0"))), sprintf("%s of %s.%s requires %s.%s to be held", what, tname, field, tname, m.Lock))
 			}
@@ -479,6 +489,9 @@ func (t *FnTrans) checkGuardedMap(m ssa.Value, write bool) {
 		for _, mo := range ts.Monitors {
 			for _, g := range mo.Guards {
 				if g != "map:"+field {
+					continue
+				}
+				if !write && t.unguardedRead(field) {
 					continue
 				}
 				lc := t.comp("L."+tname+"."+mo.Lock, "(Array Int Int)")
@@ -880,13 +893,20 @@ func (t *FnTrans) ghostAt(where string) {
 	if t.ct == nil {
 		return
 	}
+	// "before call X #n": the n-th call site of X in translation (reverse post-order) order
+	nth := 0
+	if strings.HasPrefix(where, "before call ") || strings.HasPrefix(where, "after call ") {
+		nth = t.count("ghostsite:" + where)
+	}
 	for _, g := range t.ct.Ghost {
-		if g.Arg == where {
+		if g.Arg == where || (nth > 0 && g.Arg == fmt.Sprintf("%s #%d", where, nth)) {
 			if t.ghostHit == nil {
 				t.ghostHit = map[*Clause]bool{}
 			}
 			t.ghostHit[g] = true
-			t.ghostUpdate(g, t.selfEnv(t.cur, t.entry))
+			env := t.selfEnv(t.cur, t.entry)
+			env.local = func(name string) (SVal, bool) { return t.localHere(name) }
+			t.ghostUpdate(g, env)
 		}
 	}
 }
@@ -1081,4 +1101,21 @@ func (t *FnTrans) twoPhaseCheck() {
 	// a property of the control-flow graph: no path condition, no hypotheses
 	o := &Obligation{Name: t.oblPrefix() + "::lock.twophase", Kind: "lock.twophase", NLines: 0, Guard: "true", Goal: goal, Expect: "unsat", Fn: t.oblPrefix(), Note: note, Pos: t.eng.prog.Fset.Position(t.fn.Pos())}
 	t.obls = append(t.obls, o)
+}
+
+
+// unguardedRead: `opt unguarded-read f, g`: reads of these guarded fields (and of their map contents) without
+// the lock are accepted in this function on the strength of an argument outside the lock discipline; recorded
+// as an assumption.
+func (t *FnTrans) unguardedRead(field string) bool {
+	if t.ct == nil {
+		return false
+	}
+	for _, f := range strings.Split(t.ct.Opts["unguarded-read"], ",") {
+		if strings.TrimSpace(f) == field {
+			t.abstr["assumed: unlocked reads of "+field+" in "+t.oblPrefix()+" are race-free (argument outside the lock discipline, see the contract file)"] = true
+			return true
+		}
+	}
+	return false
 }
